@@ -8,6 +8,7 @@ package sqlgen
 import (
 	"fmt"
 	"strings"
+	"verif/fold"
 
 	"pgregory.net/rapid"
 )
@@ -20,7 +21,9 @@ type Ident struct {
 
 var bareNames = []string{"a", "b", "c", "d", "e", "f", "g", "x1", "y_2", "Name", "VALUE", "é", "naïve", "col_é", "日本", "rowid", "oid", "_rowid_", "Ab", "data", "ü", "ñ1", "Ωmega", "ÉCOLE", "ж",
 	// bytes >= 0x80 are identifier characters to SQLite whatever Unicode calls them (spaces, digits, symbols)
-	"a\u00a0b", "x\u0085", "\u3000z", "w\u2003w", "smile😀", "n٣", "٣n", "p·q", "€"}
+	"a\u00a0b", "x\u0085", "\u3000z", "w\u2003w", "smile😀", "n٣", "٣n", "p·q", "€",
+	// names that differ from another one of this list only in the case of a non-ASCII letter: different names to SQLite
+	"É", "Ж", "ωmega", "NAÏVE", "\u212a", "k", "ſ", "s"}
 var quotedNames = []string{"select", "my col", "a\"b", "from", "a]b", "x`y", "tab,le", "1st", "é é", "primary", "key", "(", "a'b", "", "x.y", "--c", "q\"", "tick`", "\"\"", "end]x", "it's"}
 
 func quote(name string, style int) string {
@@ -60,7 +63,7 @@ func GenIdent(t *rapid.T, used map[string]bool, label string) Ident {
 			id.Name = fmt.Sprintf("%s_%d", id.Name, tries)
 			id.SQL = quote(id.Name, 1)
 		}
-		k := strings.ToLower(id.Name)
+		k := fold.Lower(id.Name)
 		if !used[k] {
 			used[k] = true
 			return id
@@ -280,7 +283,7 @@ func GenTable(t *rapid.T, name Ident, o Opts) Table {
 			if !o.Conservative {
 				s += genOnConflict(t, false)
 			}
-			if !tb.WithoutRowid && strings.EqualFold(c.Type, "INTEGER") && !strings.Contains(s, "DESC") && rapid.IntRange(0, 3).Draw(t, "ai") == 0 {
+			if !tb.WithoutRowid && fold.Equal(c.Type, "INTEGER") && !strings.Contains(s, "DESC") && rapid.IntRange(0, 3).Draw(t, "ai") == 0 {
 				s += " AUTOINCREMENT"
 			}
 			cons = append(cons, s)
